@@ -157,6 +157,21 @@ Res ref_apply(Ref& r, const Op& o, int newid)
     return res;
 }
 bool any_taint(const Ref& r) { return r.tainted[0] || r.tainted[1] || r.tainted[2]; }
+// Results a typed predicate find may return: entries whose tags are unspecified (tags were added while the name was not
+// stored) may or may not carry the tag, every other entry is definite. Bit i = object id i, bit 0 = null.
+uint32_t allowed_typed(const Ref& r, int sel, int t)
+{
+    uint32_t ok = 0;
+    for (int n = 0; n < NN; n++) {
+        if (!r.obj[n] || !pred_match(sel, r.obj[n])) continue;
+        if (r.tainted[n]) {
+            ok |= 1u << r.obj[n];  // may match, or be passed over
+            continue;
+        }
+        if (r.has_tags[n] && (r.tags[n] & (1u << t))) return ok | (1u << r.obj[n]);  // definite first match
+    }
+    return ok | 1u;
+}
 
 int use_obj(const SP& sp, const char* what)
 {
@@ -252,15 +267,13 @@ void compare_surface(SOH& h, const Ref& r, const char* after)
             if (!any_taint(r)) {
                 MC_CHECK(e3.v == g3.v, "findpredtype-mismatch", "after %s: findObject(pred %d,type %d) gives %d, reference %d", after, sel,
                          t, g3.v, e3.v);
-            } else if (g3.v != 0) {
-                // tags were added for a name that was not stored: which entries carry the tag is unspecified, but the
-                // call is still made (memory safety) and whatever it returns must be a stored object the predicate accepts
-                bool stored = false;
-                for (int n = 0; n < NN; n++)
-                    if (r.obj[n] == g3.v) stored = true;
-                MC_CHECK(stored && pred_match(sel, g3.v), "findpredtype-mismatch",
-                         "after %s: findObject(pred %d,type %d) returned object %d which is not stored / not accepted by the predicate", after,
-                         sel, t, g3.v);
+            } else {
+                // tags were added for a name that was not stored: whether THAT entry carries the tag is unspecified; every
+                // other entry is definite, so the result must be one of the objects that reading allows
+                uint32_t ok = allowed_typed(r, sel, t);
+                MC_CHECK(g3.v >= 0 && g3.v < 32 && (ok & (1u << g3.v)), "findpredtype-mismatch",
+                         "after %s: findObject(pred %d,type %d) returned object %d; allowed (bit set of ids, bit 0 = null): %x", after, sel, t,
+                         g3.v, ok);
             }
         }
     }
@@ -296,6 +309,10 @@ bool lin_search(int mask, const Ref& st, int n)
         const Op& op = g_hist[i].op;
         // tags added for a name that was not stored at that moment: tag queries are unspecified from then on
         bool unspecified = (op.k == CHECK && st.tainted[op.a]) || (op.k == FINDPRED_T && any_taint(st));
+        if (op.k == FINDPRED_T && any_taint(st)) {
+            int v = g_hist[i].res.v;
+            if (!(v >= 0 && v < 32 && (allowed_typed(st, op.a, op.b) & (1u << v)))) continue;
+        }
         if (!unspecified && !res_equal(op, e, g_hist[i].res)) continue;
         if (lin_search(mask | (1 << i), ns, n)) return true;
     }
@@ -323,6 +340,9 @@ void body(const Prog& p)
                         Res g = real_apply(*h, o, newid);
                         std::string t = optext(o);
                         bool skip = (o.k == CHECK && ref.tainted[o.a]) || (o.k == FINDPRED_T && any_taint(ref));
+                        if (o.k == FINDPRED_T && any_taint(ref))
+                            MC_CHECK(g.v >= 0 && g.v < 32 && (allowed_typed(ref, o.a, o.b) & (1u << g.v)), "result-mismatch",
+                                     "%s returned object %d which the reference does not allow", t.c_str(), g.v);
                         if (!skip)
                             MC_CHECK(res_equal(o, e, g), "result-mismatch", "%s returned %d, reference says %d", t.c_str(), g.v, e.v);
                         compare_surface(*h, ref, t.c_str());
